@@ -23,7 +23,9 @@ type c13Case struct {
 	Tag   string
 }
 
-func (c c13Case) ID() string { return fmt.Sprintf("%s shape=%s size=%d%s", c.Kind, c.Shape, c.Size, c.Tag) }
+func (c c13Case) ID() string {
+	return fmt.Sprintf("%s shape=%s size=%d%s", c.Kind, c.Shape, c.Size, c.Tag)
+}
 
 func bigValue(n int) string { return strings.Repeat("x", n) }
 
@@ -47,7 +49,9 @@ func snapshotState(s iface.Store) (set []string, obs string) {
 
 func runC13Case(c c13Case) (string, []explore.Violation) {
 	var vs []explore.Violation
-	bad := func(sig, detail string) { vs = append(vs, explore.Violation{Signature: sig, Detail: c.ID() + ": " + detail}) }
+	bad := func(sig, detail string) {
+		vs = append(vs, explore.Violation{Signature: sig, Detail: c.ID() + ": " + detail})
+	}
 	net := sim.NewNet()
 	net.PubSub.AutoDeliver = true
 	pPeer := net.AddPeer("P")
@@ -246,8 +250,8 @@ func c13Cases(tier string) []c13Case {
 func init() {
 	explore.Register(&explore.CheckDef{
 		ID: "C13", Level: "exploration",
-		Rule: "cross product on fresh worlds, crash-isolated: log shape {empty, chain 1..3, fork, two-writer merge, replicated only, replication in progress (fetch parked while saving)} x store type x payload-size landmarks {0,1,100,4Ki,30000,65535,65536,100Ki, three sizes that put the snapshot file around the 262144-byte unixfs chunk boundary, 300Ki}, plus windows of consecutive payload sizes (step 1; +-12 quick, +-70 thorough) around the measured sizes at which the marshalled entry and the marshalled header cross 65535 bytes, on two shapes. SaveSnapshot, restart the instance on the same cache and blockstore, LoadFromSnapshot. Oracle: a save error passes; otherwise the reload must succeed and reproduce entry set, ordered list, heads and view (superset for the in-progress shape); a panic or hang is a violation. Non-trivial = cases with payload size >= 4096 or a non-chain shape.",
-		Units: func(tier string) []explore.Unit { return explore.ChunkUnits("c13-"+tier, 16) },
+		Rule:   "cross product on fresh worlds, crash-isolated: log shape {empty, chain 1..3, fork, two-writer merge, replicated only, replication in progress (fetch parked while saving)} x store type x payload-size landmarks {0,1,100,4Ki,30000,65535,65536,100Ki, three sizes that put the snapshot file around the 262144-byte unixfs chunk boundary, 300Ki}, plus windows of consecutive payload sizes (step 1; +-12 quick, +-70 thorough) around the measured sizes at which the marshalled entry and the marshalled header cross 65535 bytes, on two shapes. SaveSnapshot, restart the instance on the same cache and blockstore, LoadFromSnapshot. Oracle: a save error passes; otherwise the reload must succeed and reproduce entry set, ordered list, heads and view (superset for the in-progress shape); a panic or hang is a violation. Non-trivial = cases with payload size >= 4096 or a non-chain shape.",
+		Units:  func(tier string) []explore.Unit { return explore.ChunkUnits("c13-"+tier, 16) },
 		Budget: func(tier string) float64 { return 500 },
 		RunUnit: func(c *explore.Ctx) {
 			prefix, i, n := explore.ParseChunk(c.Spec.Unit.Arg)
